@@ -490,6 +490,8 @@ func stack() string {
 // ---------- C10: read faults ----------
 
 func runC10(c *Ctx) {
+	ScanAfterEnd = true
+	defer func() { ScanAfterEnd = false }()
 	for _, f := range append(append(ioWorkload(c, true), xlFiles(c)...), foreignFiles(c, 1)...) {
 		if c.Only != "" && !strings.HasPrefix(c.Only, f.ID+"/") {
 			continue
@@ -696,6 +698,7 @@ func runC11(c *Ctx) {
 	runC11Resonant(c)
 	runC11Embedded(c)
 	runC11SelfFooter(c)
+	runC11AfterEmpty(c)
 	if c.Thorough {
 		runC11Large(c)
 	}
@@ -1367,6 +1370,61 @@ func runC11SelfFooter(c *Ctx) {
 			}
 			c.Out.Count("self_footer_cuts", 1)
 			checkPrefix(c, f, pf, file, cut, id)
+		}
+	}
+}
+
+// runC11AfterEmpty: the shortest truncations (0..12 bytes — what a writer that crashed right
+// after its first write leaves behind — and every prefix of a zero-row file), each read right
+// after a VALID file without row groups has been read in the same process: whatever memory
+// the earlier read left behind must not complete the missing tail.
+func runC11AfterEmpty(c *Ctx) {
+	for _, sh := range c.SelShapes() {
+		id0 := sh.Name + "/after-empty"
+		if c.Only != "" && !strings.HasPrefix(c.Only, id0+"/") {
+			continue
+		}
+		empty := &ioFile{ID: id0 + "/empty", Shape: sh, Codec: 1, Page: 1000, Recs: nil, Part: nil, Kind: "empty"}
+		fe, ok := empty.write(c)
+		if !ok || len(fe) < 12 {
+			continue
+		}
+		pe, err := pqfile.Parse(fe)
+		if err != nil {
+			continue
+		}
+		var counter uint64
+		pool, _ := EnumStructures(sh.Schema(), lensSmall, 4, &counter)
+		full := &ioFile{ID: id0 + "/small", Shape: sh, Codec: 0, Page: 1000, Recs: pool, Part: []int{len(pool)}, Kind: "small"}
+		ff, ok := full.write(c)
+		if !ok {
+			continue
+		}
+		pf, err := pqfile.Parse(ff)
+		if err != nil {
+			continue
+		}
+		type tgt struct {
+			f    *ioFile
+			p    *pqfile.File
+			file []byte
+			max  int
+		}
+		for _, t := range []tgt{{empty, pe, fe, len(fe)}, {full, pf, ff, 13}} {
+			for cut := 0; cut < t.max && cut < len(t.file); cut++ {
+				id := fmt.Sprintf("%s/%s/cut=%d", id0, t.f.Kind, cut)
+				if !c.Take(id) {
+					continue
+				}
+				// the valid empty file first: must read as zero rows without error
+				warm := ReadAll(sh, NewSource(fe), 5)
+				if warm.Panic != nil || warm.Reported() || len(warm.Recs) != 0 {
+					c.Out.Inconclusive(fmt.Sprintf("the zero-row file of %s does not read back as an empty file (a C06/C16 matter)", sh.Name))
+					return
+				}
+				c.Out.Count("prefixes_read_right_after_a_valid_empty_file", 1)
+				checkPrefix(c, t.f, t.p, t.file, cut, id)
+			}
 		}
 	}
 }
